@@ -130,7 +130,7 @@ pub fn decode_c03(bytes: &[u8]) -> Option<C03Case> {
             10 => Entry::Forged2 { value: v },
             11 => Entry::Foreign(i),
             12 => Entry::Reencoded(i, k / 14),
-            _ => Entry::Garbage((i % 10) as u8),
+            _ => Entry::Garbage((i % 13) as u8),
         });
     }
     Some(C03Case { issue, entries })
